@@ -880,6 +880,7 @@ def _strconv_formatuint(I, st, args):
 
 from . import reflectmodel  # noqa: E402  (registers the reflect models)
 from . import osmodel  # noqa: E402  (registers the filesystem model)
+from . import pgpmodel  # noqa: E402  (idealised OpenPGP)
 
 
 # time (uninterpreted) ---------------------------------------------------------------------
